@@ -111,13 +111,19 @@ class ExecRun:
         ent = dict(cmd=tick, err=0, pre_states=None)
         try:
             asgs = []
-            for (ops, cpu, ram, prio, pool) in tick['asg']:
+            for a in tick['asg']:
+                (ops, cpu, ram, prio, pool) = a[:5]
                 for o in ops:
                     if 0 <= o < len(self.w.ops) and cpu >= 1:
                         segs = self.w.segs_of(o)
                         self.used[(o, cpu)] = probe_script(segs, cpu, self.r['tps'])
+                # optional 6th element: [container number or None, is_resume, force_run] - the informational
+                # fields of an Assignment, which the executor must ignore (the model does not receive them)
+                deco = a[5] if len(a) > 5 and a[5] else [None, False, False]
                 asgs.append(Assignment([self.w.ops[o] for o in ops], cpu, num(ram), PRIO[prio], pool,
-                                       self.w.ops[ops[0]].pipeline.pipeline_id if ops else 'none'))
+                                       self.w.ops[ops[0]].pipeline.pipeline_id if ops else 'none',
+                                       container_id=None if deco[0] is None else f'c{self.base + deco[0]}',
+                                       is_resume=bool(deco[1]), force_run=bool(deco[2])))
             ent['pre_states'] = self.w.states()
             sus = [Suspend(f'c{self.base + cid}', pool) for (cid, pool) in tick['susp']]
             prev = self.trace[-1]['pools'] if self.trace and not self.trace[-1]['err'] else []
@@ -127,7 +133,8 @@ class ExecRun:
             # containers created by this tick's batch: pools in order, assignments in order
             new = []
             for pid in range(self.r['npools']):
-                for (ops, cpu, ram, prio, pool) in tick['asg']:
+                for a in tick['asg']:
+                    (ops, cpu, ram, prio, pool) = a[:5]
                     if pool == pid:
                         full = [m for o in ops for m in self.used[(o, cpu)]]
                         self.info[self.next_cid] = dict(cpu=cpu, ram=ram, ops=list(ops), full=full, pool=pid, age=0,
@@ -328,6 +335,13 @@ def gen_tick(rng, run, bad=None):
                 if st[j] in (0, 5) and j not in taken and rng.random() < 0.7 and \
                         all(st[w.gid[q]] == 4 or w.gid[q] in ops for q in w.ops[j].parents):
                     ops.append(j)
+            if rng.random() < 0.2:
+                # a container that mixes pipelines (the executor allows it): ready operators of other pipelines
+                for j in range(len(w.ops)):
+                    if not (w.first[k] <= j < w.first[k] + len(r['pipes'][k][1])) and st[j] == 0 and j not in taken \
+                            and j not in ops and rng.random() < 0.4 and \
+                            all(st[w.gid[q]] == 4 or w.gid[q] in ops for q in w.ops[j].parents):
+                        ops.append(j)
         pool = rng.randrange(r['npools'])
         acpu, aram = avail[pool]
         if acpu < 1 or (aram <= 0 and not r['over']):
@@ -386,6 +400,13 @@ def gen_tick(rng, run, bad=None):
             free = [i for i in range(len(st)) if st[i] in (0, 5) and i not in taken]
             if free:
                 a[0] = a[0] + [rng.choice(free)]
+    # informational Assignment fields (container_id of an earlier container, is_resume, force_run)
+    if run.next_cid and rng.random() < 0.35:
+        for a in tick['asg']:
+            if len(a) == 5 and rng.random() < 0.6:
+                ended = [cid for p in ex.pools for c in p.suspended_containers for cid in [run.cid(c)]]
+                known = ended if ended and rng.random() < 0.7 else list(range(run.next_cid))
+                a.append([rng.choice(known) if rng.random() < 0.85 else None, rng.random() < 0.8, rng.random() < 0.3])
     tick['asg'] = [tuple(a) for a in tick['asg']]
     return tick
 
@@ -486,5 +507,54 @@ def gen_burst(rng, gen='G-exec-burst'):
         cfg['ticks'].append(t)
         ent = run.step(t)
         if ent['err'] or not any(p['active'] for p in ent['pools']):
+            break
+    return cfg, run
+
+
+def gen_overlap(rng, gen='G-exec-overlap'):
+    """suspensions that overlap in time: one pipeline made of 2-3 independent chains, each chain in its own
+    container (so several containers of the SAME pipeline are live), optionally one container mixing a chain of
+    a second pipeline with a chain of the first; different allocations, so that the write-outs started in the
+    same or neighbouring ticks end in different ticks; what comes back is re-assigned"""
+    tps = rng.choice([1, 2, 4, 10])
+    nch = rng.randint(2, 3)
+    clen = rng.randint(2, 3)
+    # pipeline 0: nch independent chains, operator index = chain * clen + position
+    dag0 = [[c * clen + j - 1] if j else [] for c in range(nch) for j in range(clen)]
+    pipes = [(rng.choice([1, 2, 3]), dag0)]
+    mixed = rng.random() < 0.5
+    if mixed:
+        pipes.append((rng.choice([1, 2, 3]), [[j - 1] if j else [] for j in range(clen)]))
+    mk = lambda: [dict(baseline_cpu_seconds=float(rng.randint(1, 3)) / tps, cpu_scaling='const', storage_read_gb=0.0,
+                       memory_gb=0.5)]
+    segs = [[mk() for _ in range(len(d))] for (_, d) in pipes]
+    cfg = dict(gen=gen, tps=tps, over=0, multi=1, npools=rng.choice([1, 2]), cpu=16, ram=512, pipes=pipes, segs=segs,
+               ticks=[], bad=None)
+    run = ExecRun(cfg)
+    rams = rng.sample([1, 20, 40, 60, 100, 20.0 / tps, 40.0 / tps, 80.0 / tps], nch)
+    groups = [list(range(c * clen, (c + 1) * clen)) for c in range(nch)]
+    if mixed:
+        base = nch * clen
+        groups[0] = groups[0] + list(range(base, base + clen)) if rng.random() < 0.5 else \
+            [x for pr in zip(groups[0], range(base, base + clen)) for x in pr]
+    t0 = dict(susp=[], asg=[(g, 1, rams[c], pipes[0][0], rng.randrange(cfg['npools'])) for c, g in enumerate(groups)])
+    cfg['ticks'].append(t0)
+    run.step(t0)
+    for i in range(1, 80):
+        t = dict(susp=[], asg=[])
+        for pi, p in enumerate(run.ex.pools):
+            for c in p.active_containers:
+                if c.can_suspend_container() and rng.random() < 0.6:
+                    t['susp'].append((run.cid(c), pi))
+        st = run.w.states()
+        if rng.random() < 0.4:
+            for g in groups:
+                ops = [o for o in g if st[o] == 0]
+                if ops and not any(st[o] in (1, 2, 3) for o in g) and \
+                        all(st[run.w.gid[q]] == 4 or run.w.gid[q] in ops for o in ops for q in run.w.ops[o].parents):
+                    t['asg'].append((ops, 1, rng.choice(rams), pipes[0][0], rng.randrange(cfg['npools'])))
+        cfg['ticks'].append(t)
+        ent = run.step(t)
+        if ent['err'] or all(x in (4, 5) for x in run.w.states()):
             break
     return cfg, run
